@@ -1,7 +1,9 @@
 """C26 — garbage collection deletes exactly the expired shares (storage/expirer.py, lease.py, cancel_lease)."""
+import contextlib
 import hashlib
 import os
 import shutil
+import time as _realtime
 
 import common
 
@@ -18,7 +20,9 @@ TECHNIQUE = ("Lean 4 theorems over an executable model of LeaseCheckingCrawler.p
              "on real share files with a patched clock - about 60% of the servers are built through the production "
              "configuration path (tahoe.cfg with every expire.* combination -> client.read_config -> "
              "_Client.get_anonymous_storage_server) and the configuration reaching the crawler is compared with the "
-             "documented meaning of the settings; monitor = the documented expiry predicate incl. the share-type filter")
+             "documented meaning of the settings; production-path servers in cutoff-date mode are built and run under several "
+             "process time zones (TZ unset/UTC/PST8PDT/America/Los_Angeles/JST-9/Asia/Tokyo/XYZ-5:30/Pacific/Kiritimati) "
+             "with leases renewed within -5h..+13h of the cutoff, which must be midnight UTC of the configured date; monitor = the documented expiry predicate incl. the share-type filter")
 LEVEL_TEXT = ("disabled_never_deletes and deleted_iff_all_expired_partial (removed iff type enabled and every lease expired "
               "under the documented predicate; exactly the expired leases are cancelled) are proved for all configurations, "
               "clocks and lease lists whose cancel secrets are pairwise distinct and non-empty; the unguarded statement is "
@@ -91,7 +95,10 @@ class Env:
         d = os.path.join(self.root, "s%d" % self.n)
         clock = Clock()
         if cfg.get("prod"):
-            ss = self.production_server(cfg, d)
+            with tz_env(cfg.get("tz")):
+                ss = self.production_server(cfg, d)
+            if cfg.get("tz") is not None:
+                self.ctx.count("tz:" + cfg["tz"])
             ss._clock = clock          # the node passes the reactor; leases granted via the API use this clock
         else:
             kw = {}
@@ -157,9 +164,39 @@ class Env:
         return self.servers[k]
 
 
+# process time zones under which production-path servers in cutoff-date mode are built and run
+# ("unset" = no TZ variable; POSIX strings need no zoneinfo database)
+ZONES = ["unset", "UTC", "PST8PDT", "America/Los_Angeles", "JST-9", "Asia/Tokyo", "XYZ-5:30", "Pacific/Kiritimati"]
+UTC_ZONES = (None, "unset", "UTC")     # this sandbox has no /etc/localtime offset: unset behaves as UTC
+# renewal offsets around the cutoff that fall between midnight UTC and local midnight of some zone
+TZ_OFFSETS = [-5 * 3600, -1, 0, 1, 3 * 3600, 5 * 3600, 13 * 3600]
+
+
+@contextlib.contextmanager
+def tz_env(tz):
+    """Run a block with the process time zone set to tz (None: leave the environment alone)."""
+    if tz is None:
+        yield
+        return
+    old = os.environ.get("TZ")
+    try:
+        if tz == "unset":
+            os.environ.pop("TZ", None)
+        else:
+            os.environ["TZ"] = tz
+        _realtime.tzset()
+        yield
+    finally:
+        if old is None:
+            os.environ.pop("TZ", None)
+        else:
+            os.environ["TZ"] = old
+        _realtime.tzset()
+
+
 def cfg_key(cfg):
     return (cfg["enabled"], cfg["mode"], cfg.get("override"), cfg.get("cutoff"), cfg["imm"], cfg["mut"],
-            bool(cfg.get("prod")), cfg.get("spell", 0))
+            bool(cfg.get("prod")), cfg.get("spell", 0), cfg.get("tz"))
 
 
 def duration_string(secs, spell):
@@ -320,6 +357,8 @@ def gen_cfg(rng):
     else:
         cfg["mode"] = "cutoff-date"
         cfg["cutoff"] = MID + rng.choice([-400 * DAY, -40 * DAY, -DAY, 0, DAY, 5 * DAY])
+        if cfg["prod"]:
+            cfg["tz"] = rng.choice(ZONES)
     return cfg
 
 
@@ -338,8 +377,11 @@ def all_cfgs():
                                     "cutoff": None, "prod": prod, "spell": (7 * n) % 60 if prod else 0})
                     for cd in (MID - 40 * DAY, MID + DAY):
                         n += 1
-                        res.append({"enabled": enabled, "imm": imm, "mut": mut, "mode": "cutoff-date", "override": None,
-                                    "cutoff": cd, "prod": prod, "spell": (7 * n) % 60 if prod else 0})
+                        c = {"enabled": enabled, "imm": imm, "mut": mut, "mode": "cutoff-date", "override": None,
+                             "cutoff": cd, "prod": prod, "spell": (7 * n) % 60 if prod else 0}
+                        if prod:
+                            c["tz"] = ZONES[n % len(ZONES)]
+                        res.append(c)
     return res
 
 
@@ -353,6 +395,8 @@ def threshold_renewal(cfg, now):
 def gen_renewal(rng, cfg, now):
     th = threshold_renewal(cfg, now)
     r = rng.random()
+    if cfg["mode"] != "age" and rng.random() < 0.45:
+        return th + rng.choice(TZ_OFFSETS)          # between midnight UTC and some zone's local midnight
     if r < 0.55:
         return th + rng.choice([-2, -1, 0, 1, 2, -DAY, DAY, -3600, 3600])
     if r < 0.7:
@@ -401,6 +445,8 @@ def monitor_share(ctx, cfg, now, sh, exists_after, case, full_pass):
     should_go = cfg["enabled"] and type_enabled(cfg, sh["ty"]) and all_exp
     mode = "age-no-override" if (cfg["mode"] == "age" and cfg["override"] is None) else \
         ("age-override" if cfg["mode"] == "age" else "cutoff")
+    if mode == "cutoff" and cfg.get("prod") and cfg.get("tz") not in UTC_ZONES:
+        mode = "cutoff-depends-on-timezone"      # the case differs from the UTC runs only in the process time zone
     if not exists_after:
         if not cfg["enabled"]:
             ctx.violation("share deleted although expiration is disabled", case, "deleted-while-disabled")
@@ -447,7 +493,8 @@ def run_bucket(ctx, env, cfg, now, shares, via_server, si_n):
     raised = None
     prefix = si_b2a(si)[:2].decode()
     try:
-        lc.process_bucket(0, prefix, os.path.join(ss.sharedir, prefix), si_b2a(si).decode())
+        with tz_env(cfg.get("tz")):
+            lc.process_bucket(0, prefix, os.path.join(ss.sharedir, prefix), si_b2a(si).decode())
     except Exception as e:   # noqa
         raised = exc_name(e)
     after = counters(lc)
@@ -510,7 +557,8 @@ def run_cycle(ctx, env, cfg, now, buckets):
     env.ft.now = now
     raised = None
     try:
-        lc.start_slice()
+        with tz_env(cfg.get("tz")):
+            lc.start_slice()
     except Exception as e:   # noqa
         raised = exc_name(e)
     outs, lines = [], []
@@ -576,6 +624,23 @@ def corpus():
     return res
 
 
+def cycle_corpus():
+    """whole cycles on production-path servers in cutoff-date mode, one per process time zone: single-lease shares
+    renewed -5h … +13h around the cutoff (midnight UTC of the configured date) and a share with an old and a fresh lease"""
+    res = []
+    cutoff = MID - 40 * DAY
+    for zi, tz in enumerate(ZONES):
+        cfg = {"enabled": True, "imm": True, "mut": True, "mode": "cutoff-date", "override": None, "cutoff": cutoff,
+               "prod": True, "spell": zi, "tz": tz}
+        buckets = []
+        for k, off in enumerate(TZ_OFFSETS):
+            buckets.append([{"ty": "im"[(k + zi) % 2], "leases": [(1, cutoff + off, 1)]}])
+        buckets.append([{"ty": "i", "leases": [(1, cutoff - 300 * DAY, 1), (2, cutoff + 3 * 3600, 2)]},
+                        {"ty": "m", "leases": [(3, cutoff - 300 * DAY, 3), (4, cutoff - 5 * 3600, 4)]}])
+        res.append((cfg, T0, buckets))
+    return res
+
+
 def run(ctx):
     common.setup_impl_path()
     env = Env(ctx)
@@ -623,11 +688,15 @@ def _run(ctx, env):
     # (B) whole cycles: distinct cancel secrets (a raising bucket would abort the cycle; those are covered by (A))
     ncyc = ctx.budget(60, 1200)
     cyc_cases, cyc_impl, cyc_model = [], [], []
-    for i in range(ncyc):
-        cfg = gen_cfg(rng)
-        now = T0 + rng.choice([0, 1, 200 * DAY])
-        buckets = [[gen_share(rng, cfg, now, 100 * b + 10 * k + 1, 0.0) for k in range(rng.choice([1, 1, 2]))]
-                   for b in range(rng.choice([1, 2, 3, 4]))]
+    fixed = cycle_corpus()
+    for i in range(len(fixed) + ncyc):
+        if i < len(fixed):
+            cfg, now, buckets = fixed[i]
+        else:
+            cfg = gen_cfg(rng)
+            now = T0 + rng.choice([0, 1, 200 * DAY])
+            buckets = [[gen_share(rng, cfg, now, 100 * b + 10 * k + 1, 0.0) for k in range(rng.choice([1, 1, 2]))]
+                       for b in range(rng.choice([1, 2, 3, 4]))]
         a, ls = run_cycle(ctx, env, cfg, now, buckets)
         cyc_cases.append({"cfg": cfg, "now": now, "buckets": buckets, "kind": "cycle"})
         cyc_impl.append(a)
